@@ -297,7 +297,9 @@ func (z *zwriter) record(r *model.Rec) {
 	// ttl and class
 	var ttlTok, classTok string
 	cur, why, canOmit := z.currentTTL()
-	forceExplicit := z.inInclude
+	// inside an included file a TTL may be omitted only while a $TTL is in force (the file is spliced
+	// in: the includer's $TTL applies); what "most recently stated" means across files is left open
+	forceExplicit := z.inInclude && z.ttlDir == nil
 	if canOmit && cur == r.TTL && !forceExplicit && z.rnd(3) > 0 {
 		tags["ttl"] = why
 	} else {
@@ -975,9 +977,110 @@ func c06Keywords(w *core.W, j int) {
 	}
 }
 
+// c06Sequences: short hand-written entry sequences in which something that an entry depends on
+// changes between two entries that are spelled alike (origin, $TTL, class, owner).
+func c06Sequences(w *core.W, j int) {
+	type exp struct {
+		owner string
+		ttl   uint32
+	}
+	type seq struct {
+		name string
+		text string
+		want []exp
+	}
+	var seqs []seq
+	for _, spelled := range []string{"www", "@", "a.b", "*", "WWW"} {
+		abs := func(origin string) string {
+			if spelled == "@" {
+				return origin
+			}
+			return spelled + "." + origin
+		}
+		for si, sep := range []string{
+			"$ORIGIN b.example.\n",
+			"$ORIGIN b.example. ; now b\n\n; comment\n",
+			"\t300 IN A 192.0.2.9\n$ORIGIN b.example.\n",
+			"$ORIGIN x.example.\n$ORIGIN b.example.\n",
+			"$TTL 300\n$ORIGIN b.example.\n",
+		} {
+			want := []exp{{abs("a.example."), 300}}
+			if si == 2 {
+				want = append(want, exp{abs("a.example."), 300})
+			}
+			want = append(want, exp{abs("b.example."), 300})
+			seqs = append(seqs, seq{fmt.Sprintf("same-relative-owner-across-origin-change/%s/%d", strings.ToLower(spelled), si),
+				"$ORIGIN a.example.\n" + spelled + " 300 IN A 192.0.2.1\n" + sep + spelled + " 300 IN A 192.0.2.2\n", want})
+		}
+		// relative $ORIGIN and an $INCLUDE with an origin argument in between
+		seqs = append(seqs, seq{"same-relative-owner-across-relative-origin/" + strings.ToLower(spelled),
+			"$ORIGIN a.example.\n" + spelled + " 300 IN A 192.0.2.1\n$ORIGIN sub\n" + spelled + " 300 IN A 192.0.2.2\n",
+			[]exp{{abs("a.example."), 300}, {abs("sub.a.example."), 300}}})
+		seqs = append(seqs, seq{"same-relative-owner-around-include/" + strings.ToLower(spelled),
+			"$ORIGIN a.example.\n" + spelled + " 300 IN A 192.0.2.1\n$INCLUDE seq.db c.example.\n" + spelled + " 300 IN A 192.0.2.2\n",
+			[]exp{{abs("a.example."), 300}, {abs("c.example."), 77}, {abs("a.example."), 300}}})
+	}
+	// the same TTL-less line under changing $TTL values, and after explicit TTLs
+	seqs = append(seqs,
+		seq{"same-line-under-changing-$TTL", "$ORIGIN a.example.\n$TTL 100\nh A 192.0.2.1\n$TTL 200\nh A 192.0.2.1\n$TTL 1h\nh A 192.0.2.1\n",
+			[]exp{{"h.a.example.", 100}, {"h.a.example.", 200}, {"h.a.example.", 3600}}},
+		seq{"$TTL-wins-over-explicit-inside-include", "$ORIGIN a.example.\n$TTL 300\n$INCLUDE ttl.db\nafter A 192.0.2.3\n",
+			[]exp{{"one.a.example.", 600}, {"two.a.example.", 300}, {"after.a.example.", 300}}},
+		seq{"$TTL-wins-over-explicit", "$ORIGIN a.example.\n$TTL 300\none 600 A 192.0.2.1\ntwo A 192.0.2.2\n",
+			[]exp{{"one.a.example.", 600}, {"two.a.example.", 300}}},
+	)
+	files := fstest.MapFS{
+		"zones/seq.db": &fstest.MapFile{Data: []byte("www 77 IN A 192.0.2.7\n@ 77 IN A 192.0.2.7\na.b 77 IN A 192.0.2.7\n* 77 IN A 192.0.2.7\nWWW 77 IN A 192.0.2.7\n")},
+		"zones/ttl.db": &fstest.MapFile{Data: []byte("one 600 A 192.0.2.1\ntwo A 192.0.2.2\n")},
+	}
+	for _, sq := range seqs {
+		w.Eval(1)
+		w.Count("sequence_cases", 1)
+		w.NontrivialStr(sq.text)
+		wit := map[string]any{"zone_text": sq.text}
+		var got []exp
+		var err error
+		if w.Guard("ZoneParser", wit, func() {
+			zp := dns.NewZoneParser(strings.NewReader(sq.text), "", "zones/seq-main.db")
+			zp.SetIncludeAllowed(true)
+			zp.SetIncludeFS(files)
+			for rr, ok := zp.Next(); ok; rr, ok = zp.Next() {
+				got = append(got, exp{rr.Header().Name, rr.Header().Ttl})
+			}
+			err = zp.Err()
+		}) {
+			continue
+		}
+		want := sq.want
+		if strings.HasPrefix(sq.name, "same-relative-owner-around-include/") {
+			// the included file holds one line per spelling; only the one spelled like the test owner is compared
+			var f []exp
+			for _, g := range got {
+				if g.ttl != 77 || g.owner == want[1].owner {
+					f = append(f, g)
+				}
+			}
+			got = f
+		}
+		key := "C06/sequence/" + sq.name
+		if err != nil {
+			w.Violation(key, fmt.Sprintf("rejected: %v\n%s", err, sq.text), wit)
+			continue
+		}
+		ok := len(got) == len(want)
+		for i := 0; ok && i < len(want); i++ {
+			ok = strings.EqualFold(got[i].owner, want[i].owner) && got[i].ttl == want[i].ttl
+		}
+		if !ok {
+			w.Violation(key, fmt.Sprintf("got %v, the text denotes %v\n%s", got, want, sq.text), wit)
+		}
+	}
+}
+
 func init() {
 	plan, run := sections(
 		section{"matrix", tiered(1, 1), c06Matrix},
+		section{"sequences", tiered(1, 1), c06Sequences},
 		section{"quoting", tiered(1, 4), c06Quoting},
 		section{"keywords", tiered(1, 1), c06Keywords},
 		section{"zones", tiered(40000, 1500000), c06Zone},
@@ -987,7 +1090,7 @@ func init() {
 		Rule: "model record lists (14 regular types) rendered by an independent zone writer that picks per record among equivalent spellings: absolute/relative/@/omitted owner, TTL explicit (decimal or unit suffixes) or omitted exactly where $TTL / last stated TTL / configured default yields the value, class omitted/IN/CLASS1 in either order, keyword case, TYPEnnn, " +
 			"parentheses with line breaks and comments, blank and comment lines, $ORIGIN (absolute and relative) and $TTL placement, $GENERATE (ranges, steps, $, ${offset[,width[,base]]}) expanded independently, $INCLUDE trees up to depth 7 from an in-memory FS with and without an origin argument; " +
 			"parser options: origin given/given without dot/absent, default TTL set or not, include FS; the 7x8 TTL-state x line-shape matrix enumerated; oracle: parser output == the list the text was rendered from; non-trivial = distinct zone text",
-		Assumptions: []string{"after $GENERATE or $INCLUDE the next record is written with an explicit owner, and with an explicit TTL unless a $TTL is in force (the statement leaves those cases open)", "records inside included files carry explicit TTLs"},
+		Assumptions: []string{"after $GENERATE or $INCLUDE the next record is written with an explicit owner, and with an explicit TTL unless a $TTL is in force (the statement leaves those cases open)", "records inside included files carry explicit TTLs unless a $TTL is in force (the file is spliced in)"},
 		MinObserved: []string{"zones", "records_expected", "matrix_cells", "quoting_cases", "keyword_cases"},
 	})
 }
